@@ -184,13 +184,17 @@ func getFloatToStringFunction() schema.CallableFunction {
 	return funcSchema
 }
 
+// maxFormatPrecision is the largest precision floatToFormattedString accepts. A 64-bit float has at most
+// 1074 significant fractional digits, anything beyond that only adds zeros.
+const maxFormatPrecision = 2000
+
 func getFloatToFormattedStringFunction() schema.CallableFunction {
 	funcSchema, err := schema.NewCallableFunction(
 		"floatToFormattedString",
 		[]schema.Type{
 			schema.NewFloatSchema(nil, nil, nil),
 			schema.NewStringSchema(nil, nil, regexp.MustCompile(`^[beEfgGxX]$`)),
-			schema.NewIntSchema(nil, nil, nil),
+			schema.NewIntSchema(schema.PointerTo[int64](-1), schema.PointerTo[int64](maxFormatPrecision), nil),
 		},
 		// 'b' format: -ddddp±ddd
 		// 'e' format: -d.dddde±dd
@@ -201,10 +205,10 @@ func getFloatToFormattedStringFunction() schema.CallableFunction {
 		schema.NewStringSchema(
 			nil,
 			nil,
-			// Hexadecimal formats contain hexadecimal digits, binary exponents have up to four digits,
-			// and the special values are formatted as NaN, +Inf and -Inf.
-			regexp.MustCompile(`^(?:NaN|[-+]Inf|-?(?:0[xX])?[0-9a-fA-F]+(?:\.[0-9a-fA-F]*)?(?:[pPeE][-+]\d{2,4})?)$`)),
-		false,
+			// Hexadecimal formats contain hexadecimal digits, binary exponents have one ('b' format)
+			// to four digits, and the special values are formatted as NaN, +Inf and -Inf.
+			regexp.MustCompile(`^(?:NaN|[-+]Inf|-?(?:0[xX])?[0-9a-fA-F]+(?:\.[0-9a-fA-F]*)?(?:[pPeE][-+]\d{1,4})?)$`)),
+		true,
 		schema.NewDisplayValue(
 			schema.PointerTo("floatToFormattedString"),
 			schema.PointerTo(
@@ -218,8 +222,18 @@ func getFloatToFormattedStringFunction() schema.CallableFunction {
 			),
 			nil,
 		),
-		func(f float64, fmt string, precision int64) string {
-			return strconv.FormatFloat(f, fmt[0], int(precision), 64)
+		func(f float64, format string, precision int64) (string, error) {
+			// The formatted string is allocated up front with room for the requested precision, so an
+			// absurdly large precision would exhaust the memory of the process instead of failing.
+			if precision < -1 || precision > maxFormatPrecision {
+				return "", fmt.Errorf(
+					"precision %d is out of range for floatToFormattedString, must be between -1 and %d",
+					precision, maxFormatPrecision)
+			}
+			if len(format) != 1 {
+				return "", fmt.Errorf("format specifier '%s' for floatToFormattedString must be a single character", format)
+			}
+			return strconv.FormatFloat(f, format[0], int(precision), 64), nil
 		},
 	)
 	if err != nil {
